@@ -182,7 +182,9 @@ class JSONHandler(BaseHandler):
             raise errors.MediaNotFoundError('JSON')
         try:
             return self._loads(data.decode())
-        except ValueError as err:
+        except (ValueError, RecursionError) as err:
+            # NOTE: the standard decoder is recursive; a document nested too
+            #   deeply to be parsed is malformed from the client's point of view.
             raise errors.MediaMalformedError('JSON') from err
 
     def deserialize(
